@@ -228,7 +228,7 @@ def _run_tlc(module, cfg, env, workers, timeout, extra, simulate, depth, seed_, 
     # sizes the main thread -- which evaluates ASSUMEs and computes the initial states -- from its own arguments only;
     # a -Xss in JAVA_TOOL_OPTIONS reaches the worker threads but not the main thread, whose deep (finite) recursions
     # then overflow when the JIT is starved and frames stay interpreted (seen under load)
-    jopts = ["-Xss512m"] + list(java_opts)
+    jopts = ["-Xss512m", "-Djava.io.tmpdir=" + meta] + list(java_opts)      # (TLC's own scratch directory goes with the metadir, not to /tmp)
     if dfs:
         jopts.append("-Dtlc2.tool.queue.IStateQueue=StateDeque")
     cmd = ["java"] + jopts + ["-XX:+UseParallelGC", "-cp", TLA_CP, "tlc2.TLC", "-metadir", meta, "-noGenerateSpecTE", "-workers", str(workers or NCPU)]
